@@ -182,9 +182,9 @@ def extra_obligations(tier):
 
 BOUNDS = {
     'quick': dict(requests='K = 2', actions=sched.ACT_NAMES, positions=f'every gap between loop callbacks/idle ticks 0..{NPOS} + after termination',
-                  programs='P0..P8 (sync, async with 1-2 await points, waits, failure, Kill command, unsuccessful result, 2 workchains)',
+                  programs='P0..P10 (sync, async with 1-2 await points, waits, sync and async failure, Kill command, unsuccessful result, refused FINISHED entry, 2 workchains)',
                   data='resume values int (unbounded), kill/pause texts str len <= 2'),
-    'thorough': dict(requests='K = 3', actions=sched.ACT_NAMES, positions=f'0..{NPOS} + after termination', programs='P0..P8',
+    'thorough': dict(requests='K = 3', actions=sched.ACT_NAMES, positions=f'0..{NPOS} + after termination', programs='P0..P10',
                      data='int unbounded, str len <= 1'),
 }
 OUTSIDE = ['more than K requests', 'hooks that raise (that is C03)', 'requests issued from listener callbacks (covered by C04/C02 harnesses)',
